@@ -16,6 +16,16 @@ observer same_set inside Coq). In addition the base presentation is compared wit
 model (C01's judge) and the renamed presentation with the model run on the program renamed
 inside Coq by the functions the theorems are about. Temporal programs (own generator,
 no model) take part in the metamorphic comparison only.
+
+Round 3 (after seeding): (a) one ground atom with 3-6 validity intervals whose base facts are
+written in every order (ascending / descending / mixed start order; nested, overlapping,
+touching, disjoint) with rules that ask for a concrete sub-interval / instant / operator
+window inside EACH stored interval; (b) store choice with a NON-EMPTY caller's store: base
+facts in the store instead of the text, including facts the program derives again, on every
+store kind (TeeingStore / MergedStore hold them in their read-only part), a second evaluation
+on a TeeingStore / MergedStore stacked over the store of a first evaluation, and plain
+re-running, with fn:count / fn:sum over the re-derived predicate so that a fact kept or
+delivered twice shows in the fact SET.
 """
 import glob
 import itertools
@@ -1184,6 +1194,8 @@ def run(ck):
         "the model results are about finished evaluations; invariance of errors / non-termination is tested only (error class)",
         "temporal programs have no Coq model here (C13/C14): for them only the metamorphic comparison on Go's outputs applies",
         "map-iteration orders are sampled by repetition (5 runs per presentation quick, 56 on the base thorough), not enumerated",
+        "base-fact orders of a multi-interval atom: all 6 for three intervals, ascending / descending / zig-zag / 4 random for more; "
+        "pre-filled and stacked stores are exercised on generated programs with count / sum / max over integers only",
         "excluded by construction: fn:collect order, float sums, fn:pick_any (documented order-sensitive reducers), "
         "map/struct constants with duplicate keys (known finding N9), hash-equal atoms (F8), unsafe clauses (C04)"])
 
@@ -1235,11 +1247,17 @@ META = {
             "presentations hold the same facts), an injective predicate renaming (hence a package prefix) and a per-clause "
             "injective variable renaming commute with the model. On the implementation a metamorphic search: generated "
             "programs (plain Datalog with recursion, negation, arithmetic, structures, let; and temporally annotated programs "
-            "with interval variables, operators, negation) are written as base / permuted / renamed / packaged / "
+            "with interval variables, operators, negation; one atom with 3-6 validity intervals queried by concrete "
+            "sub-intervals, instants and operator windows, its base facts in every order) are written as base / permuted / renamed / packaged / "
             "two-unit / two-package texts and each is parsed, analysed and evaluated repeatedly on seven store kinds with "
-            "and without deterministic order; all canonical fact sets must coincide (verified set-equality observer), the "
+            "and without deterministic order, also with a caller's store that already holds base facts and facts the program "
+            "derives again (pre-filled store of every kind, TeeingStore / MergedStore stacked over the store of a first "
+            "evaluation, re-running on the same store) under count / sum aggregation of the re-derived predicates; all "
+            "canonical fact sets must coincide (verified set-equality observer), the "
             "base and the renamed text are also compared with the Coq model.",
     "note": "Map-iteration orders are sampled by repetition, not enumerated; temporal programs are compared metamorphically "
             "only (no model); errors and non-termination are compared by class. Excluded: documented order-sensitive "
-            "reducers, duplicate map keys (N9), hash-equal atoms (F8).",
+            "reducers (fn:collect list order, float sums, fn:pick_any), duplicate map keys (N9), hash-equal atoms (F8). "
+            "A store that delivers a fact twice is seen only through its effect on the fact set (count / sum rules); "
+            "the duplicate row itself is C06's observable.",
 }
